@@ -266,8 +266,8 @@ def config(draw, families=("simple", "simple_n", "distance"), ne=None, width="ra
         if chance(draw, 5):
             cfg["dist_noise"] = draw(st.sampled_from([0.25, 0.5, 1.0, 2.0]))
         if cfg["non_emitting_states"]:
-            if chance(draw, 3):
-                cfg["dist_noise_ne"] = draw(st.sampled_from([0.5, 1.0, 4.0]))
+            if chance(draw, 5):
+                cfg["dist_noise_ne"] = draw(st.sampled_from([0.1, 0.25, 0.5, 1.0, 4.0]))
             if chance(draw, 3):
                 cfg["restrained_ne"] = False
     return cfg
